@@ -529,14 +529,25 @@ func (ex *Exec) loopClauses(l *Loop) *LoopSpec {
 	}
 	ls := ex.contract.Loops[l.ordinal]
 	all := ex.contract.Loops[0]
-	if all == nil {
-		return ls
+	if all == nil && ls == nil {
+		return nil
 	}
-	if ls == nil {
-		return all
+	// invariants scoped to a property ("loop 1 invariant @C04 e") exist only when that property is checked
+	var m LoopSpec
+	if ls != nil {
+		m = *ls
+		m.Invariants = nil
 	}
-	m := *ls
-	m.Invariants = append(append([]*Clause{}, all.Invariants...), ls.Invariants...)
+	for _, src := range []*LoopSpec{all, ls} {
+		if src == nil {
+			continue
+		}
+		for _, inv := range src.Invariants {
+			if ex.q.propActive(inv.OnlyProp) {
+				m.Invariants = append(m.Invariants, inv)
+			}
+		}
+	}
 	return &m
 }
 
